@@ -176,11 +176,13 @@ def main_check(pid, tier, seed, workers, sessions=None, keep_going=False):
 
     t0 = time.time()
     engine = engine_for(pid)
+    engines = engine if isinstance(engine, list) else [engine]
     n = sessions or n_sessions(pid, tier)
     jobs = [
-        {"pid": pid, "tier": tier, "j": j, "seed": H(seed, pid, tier, j), "engine": engine}
+        {"pid": pid, "tier": tier, "j": j, "seed": H(seed, pid, tier, j), "engine": engines[j % len(engines)]}
         for j in range(n)
     ]
+    engine = engines[0]
     results = run_jobs(jobs, workers)
     herr = [r for r in results if r.get("harness_error")]
     if herr:
@@ -217,7 +219,7 @@ def main_check(pid, tier, seed, workers, sessions=None, keep_going=False):
             seen.add(fp)
             if len(seen) > 3:
                 break
-            path = shrink.minimise_and_write(pid, tier, engine, r, v, known)
+            path = shrink.minimise_and_write(pid, tier, engines[r["j"] % len(engines)], r, v, known)
             if path is None:
                 # minimised form matched a known finding
                 continue
@@ -228,7 +230,7 @@ def main_check(pid, tier, seed, workers, sessions=None, keep_going=False):
             exit_code = 1
     for line in kf_lines:
         print(line)
-    write_evidence(pid, tier, seed, engine, results, time.time() - t0, len(replay_paths), known_hits, kf_lines)
+    write_evidence(pid, tier, seed, sorted(set(engines)), results, time.time() - t0, len(replay_paths), known_hits, kf_lines)
     nv = len(mine)
     print(
         "%s %s: %d sessions, %d steps, %d violations of this property (%d distinct reported), %d matched known findings, %.1fs"
@@ -270,7 +272,7 @@ def write_evidence(pid, tier, seed, engine, results, wall, nviol, known_hits, kf
         "coverage": {
             "evaluations": len(results),
             "distinct_nontrivial": len(sigs),
-            "rule": RULES.get(engine, ""),
+            "rule": " || ".join(RULES.get(e, "") for e in engine),
             "samples": samples,
             "steps_executed": steps,
             "sessions_per_hour": round(len(results) / max(wall, 1e-9) * 3600),
